@@ -57,34 +57,37 @@ def consts_of(facts, crates=None):
 
 
 def table_fns(facts, crates=None):
-    """Local functions of shape `match int { k => Some(..), .., _ => None }` → set of ints mapped to Some."""
+    """Local functions from one small integer to an Option — a `match int { k => Some(..), .., _ => None }`, or a lookup in a
+    constant table with `.get(i)` — → the set of integers mapped to Some (by abstract evaluation over 0..=300)."""
+    import abseval
     out = {}
     for c in (crates or CRATES):
         for b in facts.bodies(c):
-            if b["kind"] not in ("Fn", "AssocFn") or "hir" not in b:
+            if b["kind"] not in ("Fn", "AssocFn") or "hir" not in b or len(b.get("params", [])) != 1:
                 continue
-            try:
-                m = ac.single_expr(b["hir"])
-            except Unrecognised:
-                continue
-            if m.get("k") != "match":
+            sig = b.get("sig", "")
+            if not (sig.startswith(("fn(u8)", "fn(u16)", "fn(u32)", "fn(usize)")) and "-> core::option::Option<" in sig):
                 continue
             keys = set()
             ok = True
-            for a in m["arms"]:
+            for i in range(0, 301):
+                ev = abseval.Evaluator(facts, c, {})
+                env = abseval.Env()
+                env[b["params"][0].get("name")] = ("int", i)
                 try:
-                    ints = hir.pat_ints(a["pat"])
+                    try:
+                        r = ev.ev(b["hir"], env)
+                    except abseval.Return as rt:
+                        r = rt.v
                 except Unrecognised:
                     ok = False
                     break
-                v = hir.simp(a["body"])
-                if ints is None:
-                    ok = ok and hir.is_def(v, "Option::None")
-                elif v.get("ctor", "").endswith("Option::Some"):
-                    keys |= ints
-                else:
+                if r[0] == "some":
+                    keys.add(i)
+                elif r[0] != "none":
                     ok = False
-            if ok and keys:
+                    break
+            if ok and keys and max(keys) < 300:
                 out[b["path"]] = keys
     return out
 
